@@ -116,3 +116,18 @@ Theorem C05_src_features : forall g,
   Source.compute_geometric_features g = match features g with Some fs => Ok fs | None => Err EOther end.
 Proof. exact SrcFeatures.src_features. Qed.
 Print Assumptions C05_src_features.
+
+(* ---- geometry_to_shapely (nine converters + dispatch, soundevent/geometry/conversion.py) and
+   compute_bounds (geometry/operations.py) as READ FROM THE SOURCE: they produce the shapely object and
+   the bounds of the model for every geometry whose polygons have a ring (every valid geometry). ---- *)
+From SE Require Gen.SrcConversion.
+
+Theorem C05_src_geometry_to_shapely : forall g,
+  SrcConversion.rings_ok g -> Source.geometry_to_shapely g = Ok (to_shapely g).
+Proof. exact SrcConversion.src_geometry_to_shapely. Qed.
+Print Assumptions C05_src_geometry_to_shapely.
+
+Theorem C05_src_compute_bounds : forall g,
+  validb g = true -> Source.compute_bounds_py g = py_compute_bounds g.
+Proof. exact SrcConversion.src_compute_bounds_valid. Qed.
+Print Assumptions C05_src_compute_bounds.
